@@ -1,5 +1,6 @@
 """C05 finding: PySwarms samples_via_internal_from reports particle 0 of every iteration with the
 swarm's best cost so far and with the priors of the flattened particle list.
+FIXED in /repo by fe260fe (the script now exits 0; it failed before).
 Run:  /venv/bin/python findings/C05-pyswarms-pairing.py   (real pyswarms run, ~5 s)"""
 import atexit, os, shutil, sys, tempfile
 sys.path.insert(0, os.path.join(os.path.dirname(os.path.abspath(__file__)), "..", "harness", "impl"))
